@@ -525,7 +525,20 @@ func faultStream(c *corr.Ctx, s *Spec, p EncParams, nframes int, name string) {
 	r.cs.Name = name
 	var fs []Frame
 	for i := 0; i < nframes; i++ {
-		fs = append(fs, inst.GenFrame(rg))
+		f := inst.GenFrame(rg)
+		for try := 0; try < 20; try++ { // keep the frames of one stream pairwise distinct
+			dup := false
+			for _, g := range fs {
+				if frameEq(f, g) {
+					dup = true
+				}
+			}
+			if !dup {
+				break
+			}
+			f = inst.GenFrame(rg)
+		}
+		fs = append(fs, f)
 	}
 	in := &RoundTripInput{Mode: "fault", Codec: s.Name, Params: p, Extra: inst.EInitExtra, Frames: hexFrames(fs)}
 	r.in = in
@@ -650,6 +663,18 @@ func faultStream(c *corr.Ctx, s *Spec, p EncParams, nframes int, name string) {
 				prevIntact = false
 			}
 			if !intact[fi] || !prevIntact {
+				continue
+			}
+			// the oracle recognises a frame by its content: a stream in which another frame has the
+			// same content (tiny frames at tiny payload limits) cannot be judged for this frame
+			ambiguous := false
+			for fj := range fs {
+				if fj != fi && frameEq(fs[fi], fs[fj]) {
+					ambiguous = true
+				}
+			}
+			if ambiguous {
+				c.Dist(s.Name + ".c07-frames-ambiguous")
 				continue
 			}
 			c.Dist(s.Name + ".c07-frames-checked")
